@@ -609,6 +609,12 @@ u_hugedec(uint64_t idx, void *arg)
 enum { D_MEM, D_BUF, D_SINK };
 
 /* stream = nframes frames of kind k with payload lengths lens[]; decode them in order */
+/* > 0: variable-length prefixes in the next decoder streams are written with that many octets more than the value
+ * needs (continuation bit on the last significant octet, then 80 .. 80 00): still the length in the kind's encoding -
+ * the varint decoders take such strings (C14) - as writers produce that reserve a fixed-width field and fill it in
+ * afterwards */
+static unsigned dec_pad;
+
 static void
 dec_case(int k, int dec, int octet_source, uint64_t cuts, size_t maxper, const size_t *lens, int nframes, int capdelta)
 {
@@ -617,6 +623,13 @@ dec_case(int k, int dec, int octet_source, uint64_t cuts, size_t maxper, const s
     for (int f = 0; f < nframes; f++) {
         fill(payloads[f], lens[f], (unsigned)(40 + f));
         sn += ref_prefix(k, lens[f], stream + sn);
+        if (dec_pad && k == LENP_VARIABLE && (f != 1 || nframes < 3)) {
+            stream[sn - 1] |= 0x80;
+            for (unsigned i = 1; i < dec_pad; i++)
+                stream[sn++] = 0x80;
+            stream[sn++] = 0x00;
+            VH_COUNT("decoder: variable-length prefix longer than the value needs");
+        }
         memcpy(stream + sn, payloads[f], lens[f]);
         sn += lens[f];
     }
@@ -734,6 +747,15 @@ u_dec(uint64_t idx, void *arg)
                          2 + (int)(len % 2), capd);
                 fsrc_window = 0;
                 n += 2;
+                if (k == LENP_VARIABLE) {
+                    dec_pad = 1 + (unsigned)((len + (size_t)dec) % 3);
+                    fsrc_window = wins[(len + (size_t)dec + 3) % 7];
+                    dec_case(k, dec, (int)((len >> 2) & 1), vh_rand(&r), fsrc_window ? 0 : 1 + (size_t)vh_below(&r, 5), l3,
+                             2 + (int)(len % 2), capd);
+                    fsrc_window = 0;
+                    dec_pad = 0;
+                    n++;
+                }
             }
         vh_sig(0x13300000ull ^ ((uint64_t)k << 32) ^ len);
         if (lp_wrapped) {
@@ -910,6 +932,7 @@ harness_run(void)
         vh_unit("frag", i, u_frag, NULL);
     for (uint64_t i = 0; i < 48; i++)
         vh_unit("tunnel", i, u_tunnel, NULL);
+    vh_require("decoder: variable-length prefix longer than the value needs");
     vh_require("encoder writing into a sink that frames what it receives (nested encoder calls)");
     vh_require("call through a lenp_* wrapper");
     vh_require("encoder: chunk list carved from one block (adjacent chunks)");
